@@ -34,10 +34,20 @@ func tol(a, b float64) float64 {
 
 func near(a, b float64) bool { return math.Abs(a-b) <= tol(a, b) }
 
+// within: lo <= v <= hi up to the tolerance.
+func within(v, lo, hi float64) bool { return v >= lo-tol(v, lo) && v <= hi+tol(v, hi) }
+
+func rangeStr(lo, hi float64) string {
+	if near(lo, hi) {
+		return fmt.Sprintf("%g", lo)
+	}
+	return fmt.Sprintf("between %g and %g", lo, hi)
+}
+
 func init() {
 	fw.Register(&fw.Prop{
 		ID: "C11",
-		Rule: "case i mod 20: 0-11 a generated paragraph (words, nested inline boxes with margins/borders/padding, inline-blocks, <br>, preserved newlines; white-space, text-align, line-height, text-indent, font sizes drawn; in one paragraph out of three a third of the words are made of 2-5 inline pieces with no white space between them - text runs and one-word inline boxes, adjacent or nested, with their own spacing and font sizes: b<b>o</b>ld, un<em>believ</em><i>a</i>ble) set in Ahem and laid out by the pango engine at up to 64 container widths (every multiple of font-size/2 from 1 up to 40, then a random sample up to the paragraph's full length + 2), each block compared line by line with the reference line breaker; 12-13 the same with overflow-wrap:anywhere/break-word on plain text or (3 cases in 4) with top-level inline boxes holding one text node each (own margins/borders/padding and font sizes), inline-blocks and <br> between them: an overlong word is cut only where the line has no other opportunity, a word that does not fit the rest of a line moves to the next line whole; 14-15 the same on plain text with the go-text engine; 16-17 direct calls of text.SplitFirstLine (Ahem exact, DejaVu Sans inequalities; pango / go-text) over a sweep of maximum widths, one case in four with overflow-wrap (break-word and anywhere in turn) on a text that does not start its line (isLineStart=false: no word may be cut); 18-19 a plain paragraph in DejaVu Sans at 48 widths, inequalities only (pango / go-text). " +
+		Rule: "case i mod 20: 0-11 a generated paragraph (words, nested inline boxes with margins/borders/padding, inline-blocks, <br>, preserved newlines; white-space, text-align, line-height, text-indent, font sizes drawn; in one paragraph out of three a third of the words are made of 2-5 inline pieces with no white space between them - text runs and one-word inline boxes, adjacent or nested, with their own spacing and font sizes: b<b>o</b>ld, un<em>believ</em><i>a</i>ble) set in Ahem and laid out by the pango engine at up to 64 container widths (every multiple of font-size/2 from 1 up to 40, then a random sample up to the paragraph's full length + 2), each block compared line by line with the reference line breaker; in one third of these paragraphs ((case/20+slot) mod 3 = 0) the inline boxes and inline-blocks draw vertical-align top/bottom (one time in two, also nested inside one another: aligned subtrees of CSS 2.1 10.8.1; line height = tallest of the baseline-aligned rest and the aligned subtrees, top/bottom edges of each aligned subtree on the line's top/bottom, baseline of the rest anywhere it fits when a subtree is taller); in another third (mod 3 = 1) the page is 2-6 lines high so that every block is fragmented over several pages: the lines of all its fragments together are compared with the same reference (indent on the very first line only, first line of a page at y=0); 12-13 the same with overflow-wrap:anywhere/break-word on plain text or (3 cases in 4) with top-level inline boxes holding one text node each (own margins/borders/padding and font sizes), inline-blocks and <br> between them: an overlong word is cut only where the line has no other opportunity, a word that does not fit the rest of a line moves to the next line whole; 14-15 the same on plain text with the go-text engine; 16-17 direct calls of text.SplitFirstLine (Ahem exact, DejaVu Sans inequalities; pango / go-text) over a sweep of maximum widths, one case in four with overflow-wrap (break-word and anywhere in turn) on a text that does not start its line (isLineStart=false: no word may be cut); 18-19 a plain paragraph in DejaVu Sans at 48 widths, inequalities only (pango / go-text). " +
 			"A case is non-trivial when at least one width produced a soft wrap and no comparison of the case failed; distinct = distinct input",
 		N: func(tier string) int {
 			if tier == "thorough" {
@@ -90,13 +100,28 @@ func init() {
 				"words_of_3_or_more_inline_pieces":             150 * k,
 				"rebreaks_inside_text_before_multi_piece_word": 3000 * k,
 				"rebreaks_past_unbreakable_inline_piece":       500 * k,
+				// vertical-align top/bottom: lines holding such aligned subtrees (inline boxes, inline-blocks),
+				// lines holding one nested inside a top/bottom aligned inline box, lines whose height is that
+				// of a top/bottom aligned subtree taller than the baseline-aligned rest, and lines whose
+				// height is decided by a nested one alone
+				"lines_with_top_bottom_aligned_subtrees":       3000 * k,
+				"lines_with_nested_top_bottom_subtrees":        500 * k,
+				"lines_as_tall_as_a_top_bottom_subtree":        600 * k,
+				"lines_as_tall_as_a_nested_top_bottom_subtree": 60 * k,
+				// small pages: blocks compared, page breaks between two lines of a block, and those of
+				// blocks with a text-indent (the indent must not come back on the continuation)
+				"paged_blocks_compared":              3000 * k,
+				"page_breaks_inside_blocks":          3000 * k,
+				"page_breaks_inside_indented_blocks": 600 * k,
 			}
 		},
 		Assumptions: []string{
 			"exact positions are asserted only with the Ahem font (1em square glyphs, ascent 0.8em, descent 0.2em), left-to-right ASCII text, no floats, no hyphenation, no letter/word spacing",
 			"with DejaVu Sans (/usr/share/fonts/truetype/dejavu/DejaVuSans.ttf) only inequalities with 2px slack are asserted",
-			"feature combinations that trigger the open defects of notes/C11.md (D2, D3, D5, D7-D11, D11b, D13-D16, D18, D19, G1, G3; D1, D4, D6, D12, D17, D20 are fixed and compared) are not generated or are skipped by the reference model's guards (counted as blocks_skipped_known_defect_*)",
+			"feature combinations that trigger the open defects of notes/C11.md (D2, D3, D5, D7-D11, D11b, D13-D16, D18, D19, D21, D22, G1, G3; D1, D4, D6, D12, D17, D20 are fixed and compared) are not generated or are skipped by the reference model's guards (counted as blocks_skipped_known_defect_*)",
 			"pre-wrap: plain text, single spaces, no space before a forced break; go-text engine: plain text in white-space normal/nowrap; overflow-wrap: pango engine, no word runs across an inline-box edge (D18), no indent (D14); word-break:break-all not compared",
+			"vertical-align: only top and bottom (other values: baseline); a top/bottom aligned inline box holds text, inline-blocks and top/bottom aligned inline boxes (a baseline-aligned inline box inside it is not moved with it: open defect D22, not generated); blocks where a top/bottom aligned inline box that holds another aligned subtree is moved away from its provisional baseline-on-baseline place are skipped (open defect D21: the nested subtree is moved twice; blocks_skipped_known_defect_D21); not combined with multi-piece words",
+			"small pages: paragraphs without inline-blocks and own font sizes (lines of one height), orphans/widows 1; which line goes to which page is not asserted, only that fragmentation changes nothing in the lines",
 			"words made of several inline pieces: their boxes hold one run of letters (or one box holding one run), no white space between the two start / end edges of a nested piece (D11b); not generated with overflow-wrap (D18), pre-wrap or the go-text engine",
 		},
 		Batch: 10,
@@ -155,6 +180,17 @@ func genCase(r *rand.Rand, i int, tier string) any {
 		ft.Hyphen = r.Intn(5) == 0
 		// words made of several inline pieces (b<b>o</b>ld): one paragraph in three
 		ft.Pieces = r.Intn(3) == 0
+		// vertical-align top/bottom on inline boxes and inline-blocks: one paragraph in three of
+		// slots 0-11 (drawn from the case number: the other paragraphs keep their random stream)
+		if slot < 12 && (i/20+slot)%3 == 0 {
+			ft.VAlign, ft.Spans, ft.IB, ft.Pieces = true, true, true, false
+		}
+	}
+	// small pages, the blocks continue on the following pages: another third of slots 0-11 (lines of
+	// one height only: no inline-blocks, no own font sizes)
+	pagedCase := slot < 12 && (i/20+slot)%3 == 1
+	if pagedCase {
+		ft.IB, ft.FontSize = false, false
 	}
 	ws := wpick(r, "normal", 10, "pre-wrap", 2, "pre-line", 3, "nowrap", 1, "pre", 1)
 	engine, ow := "", ""
@@ -201,6 +237,12 @@ func genCase(r *rand.Rand, i int, tier string) any {
 		p.OW = ow
 		p.Indent, p.IndPct = 0, 0
 	}
+	if pagedCase {
+		// 2 to 6 lines per page
+		if L, err := parseLH(p.LH, float64(f)); err == nil && L > 0 {
+			p.PageH = L * float64(2+(i/20)%5)
+		}
+	}
 	return c11In{Mode: "ahem", Engine: engine, Feat: ft.String(), Para: *p, Widths: widthsFor(r, p)}
 }
 
@@ -243,15 +285,24 @@ func checkAhem(in *c11In) fw.Result {
 	if err != nil {
 		return fw.Result{Verdict: fw.Inconclusive, Msg: "render: " + err.Error()}
 	}
-	if len(rd.Pages) != len(in.Widths) {
+	paged := in.Para.PageH > 0
+	if !paged && len(rd.Pages) != len(in.Widths) {
 		res.Fail("structure", fmt.Sprintf("%d pages for %d blocks separated by forced page breaks", len(rd.Pages), len(in.Widths)))
 		return res
 	}
 	multi := false
+	pg := 0 // next page to read
 	for k, W := range in.Widths {
-		div := findBlock(rd.Pages[k])
+		if !paged {
+			pg = k
+		}
+		if pg >= len(rd.Pages) {
+			res.Fail("structure", fmt.Sprintf("no page left for the div of width %d (%d pages)", W, len(rd.Pages)))
+			return res
+		}
+		div := findBlock(rd.Pages[pg])
 		if div == nil {
-			res.Fail("structure", fmt.Sprintf("page %d has no block for the div of width %d", k, W))
+			res.Fail("structure", fmt.Sprintf("page %d has no block for the div of width %d", pg, W))
 			return res
 		}
 		obs, bw, err := observeBlock(div)
@@ -262,6 +313,31 @@ func checkAhem(in *c11In) fw.Result {
 		if !near(bw, float64(W)) {
 			res.Fail("structure", fmt.Sprintf("block width %g, declared %d", bw, W))
 			return res
+		}
+		pg++
+		// small pages: the block continues on the following pages (every block ends with a forced page
+		// break and the widths are all different: a page whose block has this width is a continuation)
+		nfrag := 1
+		for paged && pg < len(rd.Pages) {
+			d2 := findBlock(rd.Pages[pg])
+			if d2 == nil {
+				res.Fail("structure", fmt.Sprintf("page %d has no block (div of width %d or the next one expected); %s", pg, W, witness(&in.Para, W)))
+				return res
+			}
+			o2, bw2, err := observeBlock(d2)
+			if err != nil {
+				res.Fail("structure", fmt.Sprintf("width %d, page %d: %v; %s", W, pg, err, witness(&in.Para, W)))
+				return res
+			}
+			if !near(bw2, float64(W)) {
+				break
+			}
+			if len(o2) > 0 {
+				o2[0].PageStart = true
+			}
+			obs = append(obs, o2...)
+			nfrag++
+			pg++
 		}
 		exp, guard := m.Layout(float64(W))
 		if guard != "" && !in.NoGuard {
@@ -278,6 +354,13 @@ func checkAhem(in *c11In) fw.Result {
 			continue
 		}
 		res.Count("blocks_compared", 1)
+		if paged {
+			res.Count("paged_blocks_compared", 1)
+			res.Count("page_breaks_inside_blocks", int64(nfrag-1))
+			if m.indent(float64(W)) != 0 {
+				res.Count("page_breaks_inside_indented_blocks", int64(nfrag-1))
+			}
+		}
 		if m.owAny {
 			res.Count("ow_blocks", 1)
 			if len(m.boxes) > 1 {
@@ -310,6 +393,19 @@ func checkAhem(in *c11In) fw.Result {
 			}
 			if l.Justified {
 				res.Count("justified_lines", 1)
+			}
+			if l.NVA > 0 {
+				res.Count("lines_with_top_bottom_aligned_subtrees", 1)
+				res.Count("top_bottom_aligned_subtrees", int64(l.NVA))
+			}
+			if l.NVANested > 0 {
+				res.Count("lines_with_nested_top_bottom_subtrees", 1)
+			}
+			if l.VADecides {
+				res.Count("lines_as_tall_as_a_top_bottom_subtree", 1)
+			}
+			if l.VANestedOnly {
+				res.Count("lines_as_tall_as_a_nested_top_bottom_subtree", 1)
 			}
 			if l.Last && i < len(exp)-1 {
 				res.Count("forced_breaks", 1)
@@ -434,9 +530,9 @@ func compare(m *model, W float64, exp []Line, obs []OLine) (string, string) {
 		// stacking: the first line starts at the top of the block, every other line where the
 		// previous one ends (observed positions: a rounding drift of the heights must not add up
 		// into a verdict), and each line is as tall as line-height and its contents require
-		if k == 0 {
+		if k == 0 || o.PageStart {
 			if !near(0, o.Y) {
-				return "line-y", fmt.Sprintf("first line %q: top at y=%g, expected 0", lineStr(e.Frags), o.Y)
+				return "line-y", fmt.Sprintf("line %d %q, first of its page: top at y=%g, expected 0", k+1, lineStr(e.Frags), o.Y)
 			}
 		} else if prev := obs[k-1].Y + obs[k-1].H; !near(prev, o.Y) {
 			return "line-y", fmt.Sprintf("line %d %q: top at y=%g but the previous line ends at y=%g (lines must stack without gap or overlap)", k+1, lineStr(e.Frags), o.Y, prev)
@@ -456,16 +552,16 @@ func compare(m *model, W float64, exp []Line, obs []OLine) (string, string) {
 		ti, ai := 0, 0
 		for _, ef := range e.Frags {
 			if ef.Kind == "t" {
-				if !near(o.BaselineYs[ti]-o.Y, e.Baseline-e.Y) {
-					return "baseline", fmt.Sprintf("line %d: baseline of %q %g below the line top, expected %g", k+1, ef.Text, o.BaselineYs[ti]-o.Y, e.Baseline-e.Y)
+				if b := o.BaselineYs[ti] - o.Y; !within(b, ef.BLo, ef.BHi) {
+					return "baseline", fmt.Sprintf("line %d: baseline of %q %g below the line top, expected %s (line height %g)", k+1, ef.Text, b, rangeStr(ef.BLo, ef.BHi), e.H)
 				}
 				ti++
 			} else {
 				if !near(ef.H, o.Frags[ti+ai].H) {
 					return "atomic-size", fmt.Sprintf("line %d: inline-block height %g, expected %g", k+1, o.Frags[ti+ai].H, ef.H)
 				}
-				if !near(o.AtomicBottoms[ai]-o.Y, e.Baseline-e.Y) {
-					return "baseline", fmt.Sprintf("line %d: bottom margin edge of the empty inline-block %g below the line top, expected on the baseline at %g", k+1, o.AtomicBottoms[ai]-o.Y, e.Baseline-e.Y)
+				if b := o.AtomicBottoms[ai] - o.Y; !within(b, ef.BLo, ef.BHi) {
+					return "baseline", fmt.Sprintf("line %d: bottom margin edge of the empty inline-block (height %g) %g below the line top, expected %s (on its baseline, or at the line's top/bottom with vertical-align top/bottom; line height %g)", k+1, ef.H, b, rangeStr(ef.BLo, ef.BHi), e.H)
 				}
 				ai++
 			}
